@@ -4,26 +4,10 @@
    reciprocal lattices, every mesh in MESHES and the parallel-shell rules in RULES.  TLC checks that the
    procedure terminates with a stencil (never "fail": the search box always contains a solution) and that the stencil
    has the properties C22 demands, verified independently of the elimination that produced the weights. *)
-EXTENDS BShells
+EXTENDS BShellsCat
 CONSTANTS MESHES, LATS, RULES, SSC, Variant
 VARIABLES lat, L, rule, st
 vars == <<lat, L, rule, st>>
-
-(* integer Gram matrices G (true Gram = G / gs) and, where it exists, an integer Cartesian basis A with A A^T = G *)
-Catalogue ==
-  [ cubic   |-> [G |-> <<<<1, 0, 0>>, <<0, 1, 0>>, <<0, 0, 1>>>>, gs |-> 1, A |-> <<<<1, 0, 0>>, <<0, 1, 0>>, <<0, 0, 1>>>>],
-    fcc     |-> [G |-> <<<<2, 1, 1>>, <<1, 2, 1>>, <<1, 1, 2>>>>, gs |-> 1, A |-> <<<<0, 1, 1>>, <<1, 0, 1>>, <<1, 1, 0>>>>],
-    bcc     |-> [G |-> <<<<3, -1, -1>>, <<-1, 3, -1>>, <<-1, -1, 3>>>>, gs |-> 1, A |-> <<<<-1, 1, 1>>, <<1, -1, 1>>, <<1, 1, -1>>>>],
-    tetra2  |-> [G |-> <<<<1, 0, 0>>, <<0, 1, 0>>, <<0, 0, 4>>>>, gs |-> 1, A |-> <<<<1, 0, 0>>, <<0, 1, 0>>, <<0, 0, 2>>>>],
-    tetraS2 |-> [G |-> <<<<1, 0, 0>>, <<0, 1, 0>>, <<0, 0, 2>>>>, gs |-> 1, A |-> <<>>],
-    ortho   |-> [G |-> <<<<4, 0, 0>>, <<0, 9, 0>>, <<0, 0, 16>>>>, gs |-> 1, A |-> <<<<2, 0, 0>>, <<0, 3, 0>>, <<0, 0, 4>>>>],
-    hex     |-> [G |-> <<<<2, -1, 0>>, <<-1, 2, 0>>, <<0, 0, 3>>>>, gs |-> 2, A |-> <<>>],
-    hex60   |-> [G |-> <<<<2, 1, 0>>, <<1, 2, 0>>, <<0, 0, 5>>>>, gs |-> 2, A |-> <<>>],
-    mono    |-> [G |-> <<<<4, 0, 2>>, <<0, 9, 0>>, <<2, 0, 5>>>>, gs |-> 1, A |-> <<<<2, 0, 0>>, <<0, 3, 0>>, <<1, 0, 2>>>>],
-    tri     |-> [G |-> <<<<4, 2, 2>>, <<2, 5, 3>>, <<2, 3, 11>>>>, gs |-> 1, A |-> <<<<2, 0, 0>>, <<1, 2, 0>>, <<1, 1, 3>>>>] ]
-ASSUME \A n \in DOMAIN Catalogue : IsGram(Catalogue[n].G)
-ASSUME \A n \in DOMAIN Catalogue : Catalogue[n].A # <<>> =>
-          \A i, j \in I3 : Dot(Catalogue[n].A[i], Catalogue[n].A[j]) = Catalogue[n].G[i][j]
 
 (* a cfg file cannot hold tuples: the mesh <<n1, n2, n3>> (n_i <= 9) is written as the integer n1 n2 n3 *)
 MeshOfCode(c) == <<c \div 100, (c \div 10) % 10, c % 10>>
